@@ -347,6 +347,28 @@ def run(ctx):
         "What is written for one entry then depends on the entries written before it (e.g. a library unit class loses its "
         "description and attributes when an earlier class had library units).")
 
+    # ---------------- R5.7: the TSV readers take every cell as text, verbatim
+    ctx.rule("R5.7", "every TSV read of the schema loaders takes cells verbatim as text (no cell text is turned into a missing value)")
+    n_reads = 0
+    for f in prog.functions.values():
+        if not f.module.name.startswith("hed.schema.schema_io"):
+            continue
+        for c in ast.walk(f.node):
+            if isinstance(c, ast.Call) and call_name(c) in ("read_csv", "read_table", "read_excel"):
+                n_reads += 1
+                ctx.saw(f)
+                kw = {k.arg: k.value for k in c.keywords if k.arg}
+                cv = lambda name: (kw[name].value if name in kw and isinstance(kw[name], ast.Constant) else
+                                   ("<expr>" if name in kw else None))
+                verbatim = cv("na_filter") is False or (cv("keep_default_na") is False and "na_values" not in kw)
+                as_text = "dtype" in kw and norm(kw["dtype"]) == "str"
+                ctx.check(verbatim and as_text, "R5.7", f.qualname, c, loc(f, c),
+                          "this TSV read %s: a cell whose text is a missing-value marker (e.g. `n/a`, `NA`, `null`) or looks "
+                          "numeric does not come back as the text that was written" % (
+                              "converts some cell texts to missing values" if not verbatim else "does not force text cells"),
+                          desc="TSV read takes cells verbatim (dtype=str, no NA conversion)")
+    ctx.floor("R5.7", "TSV reads in the schema loaders", n_reads, 2)
+
     # ---------------- R5.5
     n_loops = 0
     for cls in [base] + writers:
